@@ -30,7 +30,7 @@ def tasks(tier):
         for nf in (1, 2):
             t.append(("t_config_params", {"assemblage": a, "n_fractions": nf, "fabric": letter}))
     t += [("t_config_output", {"assemblage": a}) for a in (["olivine"], ["olivine", "enstatite"])]
-    t += [("t_config_input", {})]
+    t += [("t_config_input", {}), ("t_config_modes", {})]
     return t
 
 
@@ -479,8 +479,107 @@ def t_config_input(sess):
             z3.Implies(f["timestep"], z3.BoolVal(ts == 2.5)), z3.Implies(f["strain_final"], z3.BoolVal(sf == 3))))
 
 
+def t_config_modes(sess):
+    """The three documented input modes of parse_config (real code; file readers are recording stand-ins): which
+    mode is taken for every subset of the mode keys, what is read from where, which inputs are reset, and the
+    interplay with the output pathline names.  Documented required companions are assumed present (a mesh comes with
+    final locations, a velocity-gradient callable with initial locations)."""
+    pio = _io()
+    sess.encode(pio.parse_config, pio._parse_config_input_steadymesh, pio._parse_config_input_calcpaths, pio._parse_config_input_postpaths)
+    sess.bounds["config_modes"] = "all subsets of {mesh, velocity_gradient, paths, locations_initial, locations_final} in [input] and of {paths} in [output]"
+    sess.assume_env("meshio.read, read_scsv, np.load return what is stored at the path they are given (recording stand-ins)")
+    ikeys = ["mesh", "velocity_gradient", "paths", "locations_initial", "locations_final"]
+
+    def fake_resolve(path, refdir=None):
+        return pathlib.Path("/cfgdir" if refdir is not None else "/cwd") / str(path)
+
+    holder = {}
+
+    class FakeToml:
+        @staticmethod
+        def load(f):
+            return holder["toml"]
+
+    class FakeOpen:
+        def __init__(self, *a, **k):
+            pass
+
+        def __enter__(self):
+            return self
+
+        def __exit__(self, *a):
+            return False
+
+    class FakeMeshio:
+        @staticmethod
+        def read(path, *a, **k):
+            return ("mesh", str(path))
+
+    proxy = NpProxy()
+    proxy.load = lambda path, *a, **k: ("npz", str(path))
+
+    def fn():
+        c = sym.ctx()
+        flags = {k: SymBool(z3.Bool(f"in_{k}")) for k in ikeys}
+        c.assume(z3.Implies(z3.Bool("in_mesh"), z3.Bool("in_locations_final")))
+        c.assume(z3.Implies(z3.And(z3.Not(z3.Bool("in_mesh")), z3.Bool("in_velocity_gradient")), z3.Bool("in_locations_initial")))
+        provided = dict(timestep=1.0, mesh="m.vtu", velocity_gradient=["simple_shear_2d", "Y", "X", 5e-6], paths=["p1.npz", "p2.npz"],
+                        locations_initial="li.scsv", locations_final="lf.scsv")
+        inp = FlagDict(provided, flags, ikeys)
+        out_tab = FlagDict(dict(paths=["o.scsv"]), {"paths": SymBool(z3.Bool("out_paths"))}, ["paths"])
+        toml = {"name": "x", "parameters": {"phase_assemblage": ["olivine"], "phase_fractions": [1.0], "initial_olivine_fabric": "A"}, "input": inp, "output": out_tab}
+        holder["toml"] = toml
+        cfg = pio.parse_config("conf.toml")
+        i = cfg["input"]
+        return {k: (i[k] if k in i else "<absent>") for k in ikeys}, cfg["output"]["paths"]
+
+    class Quiet:
+        def __getattr__(self, k_):
+            return lambda *a, **kw: None
+
+    with patched((pio, "np", proxy), (pio, "resolve_path", fake_resolve), (pio, "tomllib", FakeToml), (pio, "open", FakeOpen), (pio, "meshio", FakeMeshio),
+                 (pio, "read_scsv", lambda path, *a, **k: ("scsv", str(path))), (pio, "_log", Quiet())):
+        paths, info = sym.explore(fn, catch=(Exception,), max_paths=400)
+    tag = "config modes"
+    sess.paths[tag] = {"paths": len(paths)}
+    B = {k: z3.Bool(f"in_{k}") for k in ikeys}
+    outp = z3.Bool("out_paths")
+    mesh_mode, calc_mode = B["mesh"], z3.And(z3.Not(B["mesh"]), B["velocity_gradient"])
+    post_mode = z3.And(z3.Not(B["mesh"]), z3.Not(B["velocity_gradient"]), B["paths"])
+    none_mode = z3.And(z3.Not(B["mesh"]), z3.Not(B["velocity_gradient"]), z3.Not(B["paths"]))
+    reached = set()
+    for k, p in enumerate(paths):
+        pt = f"{tag} path {k}"
+        if p.exc is not None:
+            sess.prove(f"{pt}: a configuration with the documented required inputs parses (got {type(p.exc).__name__}: {str(p.exc)[:60]})", p.pc, z3.BoolVal(False))
+            continue
+        i, opaths = p.value
+        vg = i["velocity_gradient"]
+        facts = {
+            "mesh": i["mesh"] == ("mesh", "/cfgdir/m.vtu") and i["locations_final"] == ("scsv", "/cfgdir/lf.scsv") and vg is None and i["locations_initial"] is None and i["paths"] is None,
+            "calc": isinstance(vg, tuple) and len(vg) == 2 and all(callable(x) for x in vg) and i["locations_initial"] == ("scsv", "/cfgdir/li.scsv")
+                    and i["locations_final"] is None and i["paths"] is None and i["mesh"] is None,
+            "post": i["paths"] == [("npz", "/cfgdir/p1.npz"), ("npz", "/cfgdir/p2.npz")] and i["locations_initial"] is None and i["locations_final"] is None and i["mesh"] is None,
+            "none": i["paths"] is None,
+        }
+        for mode, cond in (("mesh", mesh_mode), ("calc", calc_mode), ("post", post_mode), ("none", none_mode)):
+            q = sess.prove(f"{pt}: mode '{mode}' is taken exactly for its key pattern (mesh > velocity_gradient > paths), reads its files relative to the configuration file and resets the other inputs",
+                           list(p.pc) + [cond], z3.BoolVal(bool(facts[mode])))
+            if solve_model(list(p.pc) + [cond]) is not None:
+                reached.add(mode)
+        if k == 0:
+            sess.satisfiable(f"{tag}: reach", p.pc)
+        has_in_paths = i["paths"] is not None
+        sess.prove(f"{pt}: output pathline names are dropped iff pathlines are an input, kept otherwise, None when omitted", p.pc,
+                   z3.And(z3.Implies(z3.Not(outp), z3.BoolVal(opaths is None)),
+                          z3.Implies(outp, z3.BoolVal((opaths is None) if has_in_paths else (opaths == ["o.scsv"])))))
+    sess.prove(f"{tag}: all four modes reached", [], z3.BoolVal(reached == {"mesh", "calc", "post", "none"}))
+
+
 def default_cex(name):
     """Generic public-API replay for verdicts that carry no more specific counterexample."""
+    if name.startswith("config modes"):
+        return {"replay": "vf.props.C19:replay_config_modes", "case": {}, "cls": {"kind": "input mode of the configuration mis-parsed"}}
     return {"replay": "vf.props.replays:c19_config", "case": {}, "cls": {"kind": "configuration / parameter record deviates from what it declares"}}
 
 
@@ -503,3 +602,58 @@ def replay_output_paths(case):
         os.chdir(cwd)
     got = cfg["output"]["paths"]
     return {"reproduced": got != ["pathline001.scsv"], "detail": {"output.paths": got, "input.paths": cfg["input"].get("paths")}}
+
+
+def replay_config_modes(case):
+    """Real files (mesh, SCSV, NPZ) for every mode-key pattern: mode taken, files read, other inputs reset, output paths."""
+    import os
+    import tempfile
+
+    import meshio
+    import numpy as np
+    import pydrex.io as pio
+
+    d = tempfile.mkdtemp(prefix="c19_")
+    meshio.write_points_cells(os.path.join(d, "m.vtu"), np.array([[0.0, 0.0, 0.0], [1.0, 0.0, 0.0], [0.0, 1.0, 0.0]]), [("triangle", np.array([[0, 1, 2]]))])
+    for nm in ("li.scsv", "lf.scsv"):
+        pio.save_scsv(os.path.join(d, nm), {"delimiter": ",", "missing": "-", "fields": [{"name": "x", "type": "float", "fill": "NaN"}, {"name": "z", "type": "float", "fill": "NaN"}]},
+                      [[0.0, 1.0], [0.5, 0.25]])
+    np.savez(os.path.join(d, "p1.npz"), a=np.arange(3))
+    np.savez(os.path.join(d, "p2.npz"), a=np.arange(4))
+    problems = []
+    lines = {"mesh": 'mesh = "m.vtu"', "velocity_gradient": 'velocity_gradient = ["simple_shear_2d", "Y", "X", 5e-6]', "paths": 'paths = ["p1.npz", "p2.npz"]',
+             "locations_initial": 'locations_initial = "li.scsv"', "locations_final": 'locations_final = "lf.scsv"'}
+    n = 0
+    for keys in it.chain.from_iterable(it.combinations(list(lines), r) for r in range(6)):
+        if ("mesh" in keys and "locations_final" not in keys) or ("mesh" not in keys and "velocity_gradient" in keys and "locations_initial" not in keys):
+            continue
+        for outp in (False, True):
+            n += 1
+            f = os.path.join(d, f"c{n}.toml")
+            with open(f, "w") as fh:
+                fh.write("[input]\ntimestep = 1.0\n" + "\n".join(lines[k] for k in keys) + "\n[output]\n" + ('paths = ["o.scsv"]\n' if outp else ""))
+            where = f"input keys {list(keys)}, output paths {'given' if outp else 'omitted'}"
+            try:
+                cfg = pio.parse_config(f)
+            except Exception as e:  # noqa: BLE001
+                problems.append(f"{where}: {type(e).__name__}: {str(e)[:80]}")
+                continue
+            i = {kk: cfg["input"].get(kk, "<absent>") for kk in lines}
+            mode = "mesh" if "mesh" in keys else "calc" if "velocity_gradient" in keys else "post" if "paths" in keys else "none"
+            if mode == "mesh":
+                ok = isinstance(i["mesh"], meshio.Mesh) and len(i["mesh"].points) == 3 and tuple(i["locations_final"].x) == (0.0, 1.0) and i["velocity_gradient"] is None \
+                    and i["locations_initial"] is None and i["paths"] is None
+            elif mode == "calc":
+                vg = i["velocity_gradient"]
+                ok = isinstance(vg, tuple) and len(vg) == 2 and callable(vg[0]) and np.allclose(vg[1](np.nan, np.zeros(3))[1, 0], 1e-5) and tuple(i["locations_initial"].z) == (0.5, 0.25) \
+                    and i["locations_final"] is None and i["paths"] is None and i["mesh"] is None
+            elif mode == "post":
+                ok = isinstance(i["paths"], list) and [len(x["a"]) for x in i["paths"]] == [3, 4] and i["locations_initial"] is None and i["locations_final"] is None and i["mesh"] is None
+            else:
+                ok = i["paths"] is None
+            if not ok:
+                problems.append(f"{where}: mode '{mode}' mis-parsed")
+            want = None if (not outp or mode == "post") else ["o.scsv"]
+            if cfg["output"]["paths"] != want:
+                problems.append(f"{where}: output paths {cfg['output']['paths']!r}, expected {want!r}")
+    return {"reproduced": bool(problems), "detail": problems[:6] or f"{n} configurations parsed as documented"}
